@@ -97,12 +97,24 @@ Definition new_set (input : list kv) : list kv := ns_set (new_set_filtered input
 Definition set_len (s : list kv) : N := N.of_nat (length s).
 Definition set_get (s : list kv) (i : nat) : option kv := nth_error s i.
 
-(** Set.Value: sort.Search for the first index whose key is >= k, then compare. *)
-Fixpoint set_value (s : list kv) (k : bytes) : option value :=
-  match s with
-  | [] => None
-  | (k', v) :: r => if key_leb k k' then (if bytes_eqb k k' then Some v else None)
-                    else set_value r k
+(** sort.Search(n, f): bisection for the smallest index in [0, n] at which f holds. *)
+Fixpoint bsearch (fuel : nat) (f : nat -> bool) (i j : nat) : nat :=
+  match fuel with
+  | O => i
+  | S fu => if Nat.ltb i j then
+              let h := Nat.div (i + j) 2 in
+              if f h then bsearch fu f i h else bsearch fu f (S h) j
+            else i
+  end.
+Definition sort_search (n : nat) (f : nat -> bool) : nat := bsearch n f 0 n.
+
+(** Set.Value: sort.Search for the first index whose key is >= k, then compare keys. *)
+Definition key_ge_at (s : list kv) (k : bytes) (h : nat) : bool :=
+  match nth_error s h with Some x => key_leb k (fst x) | None => true end.
+Definition set_value (s : list kv) (k : bytes) : option value :=
+  match nth_error s (sort_search (length s) (key_ge_at s k)) with
+  | Some (k', v) => if bytes_eqb k k' then Some v else None
+  | None => None
   end.
 Definition has_value (s : list kv) (k : bytes) : bool :=
   match set_value s k with Some _ => true | None => false end.
@@ -168,8 +180,8 @@ Definition emit_simple (v : value) : option bytes :=
   | _ => None
   end.
 
-(** Encode over the iteration of a set; [emits] gives Emit() for each element in order. *)
-Definition encode_kv (x : kv) (emitted : bytes) : bytes :=
-  esc (fst x) ++ [61] ++ match snd x with VStr s => esc s | _ => emitted end.
-Definition encode (s : list kv) (emits : list bytes) : bytes :=
-  join [44] (map (fun p => encode_kv (fst p) (snd p)) (combine s emits)).
+(** Encode over the iteration of a set; [emit] is Value.Emit (only consulted for non-string values). *)
+Definition encode_kv (emit : value -> bytes) (x : kv) : bytes :=
+  esc (fst x) ++ [61] ++ match snd x with VStr s => esc s | v => emit v end.
+Definition encode (emit : value -> bytes) (s : list kv) : bytes :=
+  join [44] (map (encode_kv emit) s).
